@@ -60,6 +60,7 @@ type sgConn struct {
 	server gonet.Conn          // the server's end of the connection: the harness can put a barrier frame on it
 	mark   chan *qnet.Message // barrier frames arrive here once everything before them has been dispatched
 	markID uint32
+	wire   int64 // events of the signal (object 1) that have arrived on the connection, subscribed to or not
 }
 
 type sgSub struct {
@@ -137,6 +138,15 @@ func (w *sgWorld) connect() (*sgConn, error) {
 	c := &sgConn{hold: h, ep: ep, client: cl, proxy: bus.NewProxy(cl, meta, 1, 1), cache: cache, server: b,
 		mark: make(chan *qnet.Message, 16)}
 	ep.MakeHandler(func(hd *qnet.Header) (bool, bool) { return hd.Action == 999999, true }, c.mark, nil)
+	tap := make(chan *qnet.Message, 4096)
+	ep.MakeHandler(func(hd *qnet.Header) (bool, bool) {
+		return hd.Type == qnet.Event && hd.Service == 1 && hd.Object == 1 && hd.Action == 102, true
+	}, tap, nil)
+	go func() {
+		for range tap {
+			atomic.AddInt64(&c.wire, 1)
+		}
+	}()
 	w.conns = append(w.conns, c)
 	return c, nil
 }
@@ -262,6 +272,8 @@ func (s *sgSub) stable() (string, bool) {
 	return strings.Join(s.got, " "), s.closed
 }
 
+var sgOtherUID uint64 = 700000
+
 func execSg(op string) func(a []string) string {
 	return func(a []string) string {
 		n := func(i int) int { v, _ := strconv.Atoi(a[i]); return v }
@@ -293,6 +305,21 @@ func execSg(op string) func(a []string) string {
 				return "error:" + err.Error()
 			}
 			return "ok"
+		case "other":
+			// a registration for another signal of the object, on this connection
+			sgOtherUID++
+			if _, err := bus.MakeObject(w.conns[n(0)].proxy).RegisterEvent(1, 999, sgOtherUID); err != nil {
+				return "error:" + err.Error()
+			}
+			return "ok"
+		case "wire":
+			// how many events of the signal the server has put on this connection so far
+			c := w.conns[n(0)]
+			if !c.barrier() {
+				return "no-barrier"
+			}
+			time.Sleep(time.Millisecond)
+			return strconv.FormatInt(atomic.LoadInt64(&c.wire), 10)
 		case "hold":
 			w.conns[n(0)].hold.set(true)
 			return "ok"
@@ -768,7 +795,7 @@ func init() {
 		}
 		return r
 	}
-	for _, op := range []string{"subfail", "observe", "oterm", "holdunreg", "reset", "conn", "hold", "release", "sub", "cancel", "emit", "call", "got", "osub", "ocancel", "oemit", "ogot"} {
+	for _, op := range []string{"other", "wire", "subfail", "observe", "oterm", "holdunreg", "reset", "conn", "hold", "release", "sub", "cancel", "emit", "call", "got", "osub", "ocancel", "oemit", "ogot"} {
 		executors["sg."+op] = execSg(op)
 	}
 	executors["sg.burstcancel"] = func(a []string) string {
@@ -909,10 +936,15 @@ func runC13(r *Rand, tier string, o *Out) {
 					o.Do("P", fmt.Sprintf("sg.subfail %d", k), true)
 					o.Count("op:subscription-that-fails")
 				}
-			case c < 82:
+			case c < 80:
 				if !held[k] {
 					o.Do("P", fmt.Sprintf("sg.call %d", k), true)
 					o.Count("op:other-traffic")
+				}
+			case c < 82:
+				if !held[k] && waiting[k] == 0 {
+					o.Do("P", fmt.Sprintf("sg.other %d", k), true)
+					o.Count("op:registration-for-another-signal")
 				}
 			case c < 90:
 				if !held[k] && waiting[k] == 0 {
@@ -937,9 +969,12 @@ func runC13(r *Rand, tier string, o *Out) {
 					}
 				}
 			default:
-				if len(subs) > 0 {
+				if len(subs) > 0 && r.Bool() {
 					o.Do("P", fmt.Sprintf("sg.got %d", r.Intn(len(subs))), true)
 					o.Count("op:observe")
+				} else if !held[k] && waiting[k] == 0 {
+					o.Do("P", fmt.Sprintf("sg.wire %d", k), true)
+					o.Count("op:observe-the-connection")
 				}
 			}
 		}
@@ -952,6 +987,9 @@ func runC13(r *Rand, tier string, o *Out) {
 		o.Do("P", fmt.Sprintf("sg.emit %d", emitN), true)
 		for j := range subs {
 			o.Do("P", fmt.Sprintf("sg.got %d", j), true)
+		}
+		for k := 0; k < nconn; k++ {
+			o.Do("P", fmt.Sprintf("sg.wire %d", k), true)
 		}
 		for j := range osubs {
 			o.Do("P", fmt.Sprintf("sg.ogot %d", j), true)
@@ -976,6 +1014,16 @@ func runC13(r *Rand, tier string, o *Out) {
 	for _, l := range []string{
 		"sg.reset", "sg.conn", "sg.osub 0", "sg.osub 0", "sg.oterm", "sg.sub 0", "sg.ocancel 0", "sg.sub 0", "sg.ocancel 1",
 		fmt.Sprintf("sg.emit %d", emitN), "sg.got 0", "sg.got 1", "sg.ogot 0", "sg.ogot 1",
+	} {
+		o.Do("P", l, true)
+	}
+	// registrations for several signals of the object on several connections; one leaves while a later one stays:
+	// what the server still puts on the connection that left
+	emitN += 3
+	for _, l := range []string{
+		"sg.reset", "sg.conn", "sg.conn", "sg.conn", "sg.sub 0", "sg.other 1", "sg.sub 2", "sg.other 2", fmt.Sprintf("sg.emit %d", emitN-2),
+		"sg.cancel 0", fmt.Sprintf("sg.emit %d", emitN-1), "sg.wire 0", "sg.wire 1", "sg.wire 2", "sg.cancel 1", fmt.Sprintf("sg.emit %d", emitN),
+		"sg.wire 0", "sg.wire 2", "sg.got 0", "sg.got 1",
 	} {
 		o.Do("P", l, true)
 	}
